@@ -90,6 +90,10 @@ func init() {
 		Components: []string{"real: packetio.Buffer, dpipe, udp listener connections (over the simnet UDP kernel stub), vnet.UDPConn (two hosts on one router), test.Bridge endpoint (with a ticker worker), deadline.Deadline", "stub: simnet in-memory UDP kernel under the udp package"},
 		Assumptions: append([]string{"'a read after the deadline passed must time out' is asserted only once the expiry has been observed (an earlier read timed out under the same setting) or the deadline was already past when set: a timer callback that has not run yet is a legitimate race", "liveness is evaluated at quiescence only"}, stdAssume...),
 		Rule: "per run one connection type; three workers: deadline setter (zero/past/near/far, SetReadDeadline or SetDeadline), reader (bounded reads with idle periods), writer (datagram arrivals), with sleeps equal to / around the deadline durations; both timer-channel modes. Non-trivial: >=2 workers and >=1 context switch; distinct = schedule hash"})
+	def("C17", &propCfg{Pkgs: []string{"netctx", "connctx", "zzverif/simnet"},
+		Components: []string{"real: netctx.Conn, netctx.PacketConn, connctx.ConnCtx (their watcher goroutines are workers)", "stub: simnet stream/packet pipes with deadlines, partial writes, short reads, a ground-truth byte log and an injectable SetDeadline error"},
+		Assumptions: append([]string{"after an injected SetDeadline failure only 'the operation returns' is required for that run", "one reader and one writer worker per end, so the leftover-deadline check right after a return cannot race with the next operation of the same direction"}, stdAssume...),
+		Rule: "stream and packet flavours; per end a reader and a writer issuing <=4 operations each with contexts that are background, already cancelled, cancelled by a canceller worker after 0..1ms, or WithTimeout on the fake clock; pipe capacities 1..4096 (back-pressure, partial writes), short reads. Non-trivial: >=2 workers and >=1 context switch; distinct = schedule hash"})
 	def("C09", &propCfg{
 		Components:  []string{"real: deadline.Deadline over simrt.Timer (AfterFunc callbacks are workers parked at their entry, so a dispatched-but-unrun callback can be overtaken by further Set calls)", "stub: none"},
 		Assumptions: stdAssume,
